@@ -39,6 +39,9 @@ Fails(r) == CASE r.ev = "expr" -> ExprFails(r)
               \* a history with Context::clear: the nodes built afterwards are deduplicated among themselves and evaluate
               \* to the values of the expressions they were asked to mean
               [] r.ev = "clear" -> (IF r.panic = "" /\ r.distinct /\ r.values THEN {} ELSE {"after-clear"})
+              \* a shared subtree used plainly and under a remap, imported into a fresh and into a long-lived context
+              [] r.ev = "shared-import" -> (IF r.panic = "" /\ \A k \in 1..Len(r.evals) : SameZ(r.evals[k].fresh, r.evals[k].want) /\ SameZ(r.evals[k].long, r.evals[k].want)
+                                            THEN {} ELSE {"shared-import"})
               [] OTHER -> {"unknown-event"}
 
 Init == l = 1
